@@ -163,7 +163,7 @@ func regName(s string) string   { return strings.ReplaceAll(strings.ToLower(s), 
 
 func randCoin(r *rand.Rand) sdk.Coin {
 	denoms := []string{"ujkl", "ujkl", "ujkl", "utest", "Bad Denom", "x"}
-	amts := []int64{0, 1, 5, 777, 1000, 123456, -5, 2e15}
+	amts := []int64{0, 1, 5, 777, 1000, 123456, -5, 2e15, 60_000_000, 2_000_000_000, 700_000_000}
 	w := r.Intn(10)
 	var amt int64
 	if w < 7 {
@@ -276,6 +276,14 @@ func (g *rnsGen) next() (sdk.Msg, map[string]interface{}) {
 	case k < 58:
 		creator := g.actors[r.Intn(len(g.actors))]
 		price := randCoin(r)
+		if bids := g.c.A.RnsKeeper.GetAllBids(g.c.Ctx()); len(bids) > 0 && r.Intn(4) == 0 {
+			// the same account bids again on the same name — half the time with the very same amount
+			b := bids[r.Intn(len(bids))]
+			creator, nm, ln = b.Bidder, b.Name, lowerName(b.Name)
+			if pc, err := sdk.ParseCoinNormalized(b.Price); err == nil && r.Intn(2) == 0 {
+				price = pc
+			}
+		}
 		return &rnstypes.MsgBid{Creator: creator, Name: nm, Bid: price},
 			map[string]interface{}{"bid": map[string]interface{}{"creator": creator, "rawName": nm, "lname": ln, "priceRaw": price.String(), "price": parseCoinsJ(price.String())}}
 	case k < 66:
@@ -360,6 +368,7 @@ func runRns(seed int64, histories, steps int, out *Emitter) {
 		}
 		c := NewChain(4, []string{"ujkl", "utest"}, mut)
 		g := &rnsGen{c: c, r: r}
+		poorLeft := []int64{0, 4_000_000, 9_999_999, 10_000_000, 35_000_000, 150_000_000}[r.Intn(6)]
 		for _, u := range c.Users {
 			g.actors = append(g.actors, u.String())
 		}
@@ -367,6 +376,13 @@ func runRns(seed int64, histories, steps int, out *Emitter) {
 		g.tracked = append(append([]string{}, g.actors...), c.ModuleAddr(rnstypes.ModuleName), pol.String())
 		sort.Strings(g.tracked)
 		c.Begin(6 * time.Second)
+		// the last actor is poor: it cannot afford most names (what it gives away goes to the first;
+		// every step record carries its own pre-state, so this needs no record of its own)
+		if have := c.A.BankKeeper.GetBalance(c.Ctx(), c.Users[3], "ujkl").Amount; have.GT(sdk.NewInt(poorLeft)) {
+			if err := c.A.BankKeeper.SendCoins(c.Ctx(), c.Users[3], c.Users[0], sdk.NewCoins(sdk.NewCoin("ujkl", have.SubRaw(poorLeft)))); err != nil {
+				panic(err)
+			}
+		}
 		for i := 0; i < steps; i++ {
 			if r.Intn(6) == 0 {
 				if p := c.NextBlock(6 * time.Second); p != nil {
